@@ -5,7 +5,10 @@ Functions under contract:
   emd._cycles_support.project_cycles_to_samples   : out[s] = vals[cv[s]] where 0 <= cv[s] < len(vals), NaN elsewhere (contract of C16);
   emd.cycles.bin_by_phase (vector of values, no weights, given increasing edges) : avg[b] * #{t: bin(t) = b+1} = sum of x over exactly
                             those samples, and avg[b] is missing (NaN) iff the bin is empty; bin(t) = k means edge[k-1] <= phase[t] < edge[k];
-bounded stand-in only: get_cycle_stat (wrapper through IterateCycles), phase_align, weighted / multi-column bin_by_phase.
+  emd.cycles.phase_align (mode 'cycle', cycles handed over as an iterator) : column k of the result is the interpolant built from exactly
+                            the phase / value samples of cycle k (same samples, temporal order), requested kind, extrapolating, evaluated on the phase
+                            grid; lemma: linear interpolation is exact for quantities linear in phase;
+bounded stand-in only: get_cycle_stat (wrapper through IterateCycles), the interpolation-error clause of phase_align, weighted / multi-column bin_by_phase.
 """
 import itertools
 import numpy as np
@@ -17,15 +20,16 @@ from pyvc.verify import Unit
 PROPERTY = 'C14'
 LEVEL = 'proof'
 FUNCTIONS = ['emd._cycles_support.get_cycle_stat_from_samples', 'emd._cycles_support.map_cycle_to_samples (inlined)', 'emd._cycles_support.project_cycles_to_samples',
-             'emd.cycles.bin_by_phase (1-d values, unweighted, variance_metric default)', 'emd.support.ensure_vector (inlined)', 'emd.support.ensure_equal_dims (inlined)']
+             'emd.cycles.bin_by_phase (1-d values, unweighted, variance_metric default)', 'emd.cycles.phase_align (cycle mode; IterateCycles, interp1d, define_hist_bins by contract)', 'emd.support.ensure_vector (inlined)', 'emd.support.ensure_equal_dims (inlined)']
 ASSUMPTIONS = [
     'floats are mathematical reals with a NaN flag; numpy ints unbounded',
     'assumed numpy contracts (cross-checked natively): where (as a function of the compared label), ==, max, zeros, integer-array gather / assignment',
     'the reducing function is an arbitrary pure function of the gathered vector (uninterpreted F over the reified vector and its length)',
     'bin_by_phase unit: assumed numpy contracts digitize (increasing edges), boolean-mask gather = np.where gather, sum(x[mask]) = indicator sum, count_nonzero(mask) = len(np.where(mask)[0]), repeat, mean with IEEE semantics (mean of an empty selection and sums with a NaN term are NaN, not exceptions; a zero divisor gives inf / nan); the variance outputs are computed but not specified',
-    'phase_align and the get_cycle_stat wrapper (generator-based iteration, scipy interp1d) are NOT under a discharged contract: bounded stand-in only',
+    'phase_align unit: the cycle iterator is the contract of IterateCycles in cycle mode (yields (k, np.where(cycle_vect == k)[0]) for k < ncycles, every cycle non-empty); scipy interp1d is a stub returning an uninterpreted interpolant per cycle whose call-site obligations check what it is given; assumed contract of linear interpolation for the lemma: the value at q lies on the line through two data points',
+    'the get_cycle_stat wrapper (generator-based iteration) is NOT under a discharged contract: bounded stand-in only',
 ]
-NOT_COVERED = ['phase_align: linear-in-phase exactness and interpolation-error clause - bounded stand-in only',
+NOT_COVERED = ['phase_align: the interpolation-error clause for non-linear quantities, augmented mode, cycles given as a vector or a Cycles object - bounded stand-in only',
                'bin_by_phase with weights, with 2-d values or with default (linspace) edges; its variance outputs - bounded stand-in only',
                'get_cycle_stat wrapper / output modes - bounded stand-in only']
 
@@ -129,12 +133,143 @@ def bin_unit():
     return u
 
 
+# ----------------------------------------------------------------------------- phase_align (mode 'cycle', cycles given as an iterator)
+#
+# For every cycle k the interpolant is built from EXACTLY the samples carrying label k (phase and value at the same samples, in
+# temporal order), with the requested kind and with extrapolation beyond the cycle's first / last sample, and column k of the result
+# is that interpolant evaluated on the phase grid.  scipy's interp1d is a contract stub; the lemma below gives exactness for
+# quantities linear in phase under the assumed contract of linear interpolation.
+NPTS = z3.Int('npoints')
+NCYC = z3.Int('ncycles')
+INTERP = z3.Function('INTERPOLANT', I, R, R)      # value of the interpolant of cycle k at phase q
+
+
+class _GhostCycles:
+    """contract of IterateCycles in 'cycle' mode over a label vector: yields (k, samples of cycle k) for k = 0..ncycles-1"""
+
+    def __init__(self, KK, WW):
+        self.KK, self.WW = KK, WW
+        self.mode = 'cycle'
+        self.niters = SInt(NCYC)
+        self.nsamples = SInt(N)
+
+    def __sym_iter__(self):
+        from pyvc import cut
+        r = cut.SRange(NCYC)
+        me = self
+
+        class Items:
+            def __getitem__(self, idx):
+                k = lift(idx)
+                inds = SArr((me.KK(k),), lambda j: me.WW(k, j), 'i', incr=True)
+                inds.nonneg = True
+                inds.cycle = k
+                return (wrap(k), inds)
+        r.items = Items()
+        return r
+
+
+def _mk_pa(c):
+    ip, IPF = vec('ip', N, 'f')
+    x, XF = vec('x', N, 'f')
+    cvf = z3.Function('cv', I, I)
+    c.assume(z3.And(N >= 2, NPTS >= 1, NCYC >= 0))
+    KK, WW, PP = npshim.register_param_where(c, cvf, N, 'cv')
+    k_ = z3.Int('ck')
+    c.assume(z3.ForAll([k_], z3.Implies(z3.And(0 <= k_, k_ < NCYC), KK(k_) >= 1), patterns=[KK(k_)]))     # every cycle has at least one sample
+    c.ghost['pa'] = (IPF, XF, KK, WW)
+    c.ghost['kinds'] = []
+    return (ip, x), dict(cycles=_GhostCycles(KK, WW), npoints=SInt(NPTS), interp_kind='linear')
+
+
+def _call_pa(f, c, a, kw):
+    g = f.__globals__
+    IPF, XF, KK, WW = c.ghost['pa']
+
+    class Interp:
+        @staticmethod
+        def interp1d(pd, xd, kind='linear', bounds_error=None, fill_value=np.nan, **kw2):
+            c2 = core.C()
+            import sys
+            fr = sys._getframe(1)
+            while fr is not None and 'cind' not in fr.f_locals:
+                fr = fr.f_back
+            if fr is None:
+                raise core.Unsupported('interp1d called outside the per-cycle loop')
+            k = fr.f_locals['cind']          # the cycle being processed (ghost read of the loop variable)
+            j = c2.fresh('ij', I)
+            c2.ghost['kinds'].append((kind, bounds_error, fill_value))
+            c2.oblige('phase_align->interp1d:requested-kind-and-extrapolation', z3.BoolVal(kind == 'linear' and bounds_error is False and fill_value == 'extrapolate' and not kw2), 'post')
+            n = KK(lift(k))
+            c2.obl.append(core.Obligation('phase_align->interp1d:exactly-the-samples-of-the-cycle', list(c2.pc) + [z3.And(0 <= j, j < n)],
+                                          z3.And(pd.shape_e[0] == n, xd.shape_e[0] == n, pd.elem(j) == IPF(WW(lift(k), j)), xd.elem(j) == XF(WW(lift(k), j))), 'post', list(c2.prefix[:c2.pos])))
+            kk = lift(k)
+
+            def ev(q):
+                return SArr(q.shape_e, lambda t: INTERP(kk, q.elem(t)), 'f')
+            return ev
+    g['interp'] = Interp
+
+    def ensure_cycle_inputs(v):
+        return v
+
+    class Spectra:
+        @staticmethod
+        def define_hist_bins(lo, hi, nb, scale='linear'):
+            c2 = core.C()
+            c2.oblige('phase_align->define_hist_bins:grid-over-[0,2pi)-with-npoints-bins', z3.And(lift(lo) == 0, to_real_(hi) == 2 * PI, lift(nb) == NPTS), 'post')
+            E = c2.fresh_fun('edge', I, R)
+            Bc = z3.Function('PHASE_GRID', I, R)
+            return SArr((NPTS + 1,), lambda t: E(t), 'f'), SArr((NPTS,), lambda t: Bc(t), 'f')
+    g['spectra'] = Spectra
+    g['_ensure_cycle_inputs'] = ensure_cycle_inputs
+    return f(*a, **kw)
+
+
+def to_real_(v):
+    e = lift(v)
+    return z3.ToReal(e) if e.sort() == I else e
+
+
+def _loops_pa():
+    kq, tq = z3.Ints('lk lt')
+    Bc = z3.Function('PHASE_GRID', I, R)
+    return {0: {'inv': [('shape', lambda e: and_(SBool(e.avg.shape_e[0] == NPTS), SBool(e.avg.shape_e[1] == NCYC))),
+                        ('columns-so-far', lambda e: SBool(z3.ForAll([kq, tq], z3.Implies(z3.And(0 <= kq, kq < lift(e.tgt0), 0 <= tq, tq < NPTS),
+                                                                                         e.avg.elem(tq, kq) == INTERP(kq, Bc(tq))))))]}}
+
+
+def _post_pa(c, a, kw, r):
+    avg, bins = r
+    k, t = z3.Ints('pk pt')
+    Bc = z3.Function('PHASE_GRID', I, R)
+    c.oblige('post:grid-points-by-cycles', z3.And(avg.shape_e[0] == NPTS, avg.shape_e[1] == NCYC), 'post')
+    c.oblige('post:column-k-is-the-interpolant-of-cycle-k-on-the-phase-grid', z3.Implies(z3.And(0 <= k, k < NCYC, 0 <= t, t < NPTS), avg.elem(t, k) == INTERP(k, Bc(t))), 'post')
+    c.oblige('post:returned-grid-is-the-grid-used', z3.Implies(z3.And(0 <= t, t < NPTS), bins.elem(t) == Bc(t)), 'post')
+
+
+def pa_unit():
+    import emd.cycles as EC
+    u = Unit('phase_align[cycle mode]', 'emd/cycles.py', 'phase_align', _mk_pa, _post_pa, loops=_loops_pa(), module=EC, wrap_call=_call_pa,
+             inline=[('emd/support.py', 'ensure_vector', {}), ('emd/support.py', 'ensure_equal_dims', {})])
+    return u
+
+
+def lemmas(tier):
+    """linear interpolation / extrapolation (assumed contract: the value lies on the line through two of the data points) reproduces a
+    quantity that is linear in phase: if x_i = a p_i + b for the data points then the interpolant at q is a q + b"""
+    a_, b_, q, p1, p2, x1, x2, v = z3.Reals('la lb lq lp1 lp2 lx1 lx2 lv')
+    on_line = z3.And(p1 != p2, v == x1 + (x2 - x1) * (q - p1) / (p2 - p1))
+    return [('linear-interpolation-is-exact-for-quantities-linear-in-phase', [on_line, x1 == a_ * p1 + b_, x2 == a_ * p2 + b_], v == a_ * q + b_)]
+
+
 def units(tier):
     import emd._cycles_support as CS
     U = [Unit('get_cycle_stat_from_samples', C16.SUP, 'get_cycle_stat_from_samples', _mk_stat, _post_stat, loops=_loops_stat, module=CS,
               inline=[(C16.SUP, 'map_cycle_to_samples', {})])]
     U += [u for u in C16.units(tier) if u.name == 'project_cycles_to_samples']
     U.append(bin_unit())
+    U.append(pa_unit())
     return U
 
 
